@@ -3,7 +3,7 @@ designlib.Builder through the public API) per child process forked right after `
 yet: the child has the state of a fresh interpreter), or per interpreter (mode "direct").
 
 job: {"design": <design JSON>, "ops": [[kind, tops], ...]}
-  ops: ["E", tops] h.elaborate(list) | ["P", [t]] h.to_proto(module t) | ["N", tops] h.netlist(list, spice)
+  ops: ["E", tops] h.elaborate(list) | ["P", [t]] h.to_proto(module t) | ["N", tops] h.elaborate(list); h.netlist(list, spice)
 result per call: {"ok": bool, "err": {...}|None, "pkg": package JSON (P calls that returned)}
 Under VERIF_C07E_LOG=1 the default passes are replaced by logging subclasses (public set_elaborator API) and every call
 also reports the (pass class, module index) bodies it ran - used by the failure-point stream of C08E.
@@ -62,8 +62,14 @@ def run_job(job):
             elif kind == "P":
                 rec["pkg"] = pkg_json(h.to_proto(mods[0]))
             elif kind == "N":
-                dest = _io.StringIO()
-                h.netlist(mods, dest=dest, fmt="spice")
+                # the verdict compared with the model is the one of the elaboration h.netlist starts with; what the netlister
+                # itself refuses afterwards (e.g. a physical primitive no PDK compiled) is recorded, not compared
+                h.elaborate(mods)
+                try:
+                    dest = _io.StringIO()
+                    h.netlist(mods, dest=dest, fmt="spice")
+                except Exception as e:
+                    rec["netlister"] = exc_info(e)
             else:
                 raise ValueError(kind)
         except Exception as e:
